@@ -1,6 +1,6 @@
 (* C24 -- concrete witnesses evaluated by the kernel: the defects of the transcribed code
    (refutations) and non-trivial inputs satisfying the hypotheses of the theorems. *)
-From SE Require Import C24.DenseModel C24.DenseBase C24.DenseSpec.
+From SE Require Import C24.DenseModel C24.DenseLegacy C24.DenseBase C24.DenseSpec.
 From Coq Require Import Lia.
 Local Open Scope N_scope.
 
@@ -30,19 +30,19 @@ Proof.
   specialize (HF _ Hin). destruct (nth (N.to_nat k) (dm M) x0); cbn in *; [exact I | discriminate | discriminate].
 Qed.
 
-(* ---------- the witness of DESIGN.md section 11 row 22 ---------- *)
+(* ---------- the witness of DESIGN.md section 11 row 22 (code before the repair e64308a) ---------- *)
 Definition W22 : dmat := mat_of_Z 3 3 [0; 1; 2; 0; 3; 4; 0; 5; 7]%Z.
 
-(* pivoted_gaussian_elimination leaves row 1 = (0, 3, 4) under row 0 = (0, 1, 2): two rows
+(* pivoted_gaussian_elimination_v0 leaves row 1 = (0, 3, 4) under row 0 = (0, 1, 2): two rows
    with the same leading column -- not an echelon form *)
 Lemma pge_W22 :
-  res_map (fun r => mat_repr (fst r)) (pivoted_gaussian_elimination W22 (mzero 3 3) [])
+  res_map (fun r => mat_repr (fst r)) (pivoted_gaussian_elimination_v0 W22 (mzero 3 3) [])
   = Ok [zr 0; zr 1; zr 2; zr 0; zr 3; zr 4; zr 0; zr 0; zr (-13)]%Z.
 Proof. vm_compute. reflexivity. Qed.
 
 (* the fraction-free variant divides by B[0][0] = 0 and produces zoo *)
 Lemma pffge_W22 :
-  res_map (fun r => mat_repr (fst r)) (pivoted_fraction_free_gaussian_elimination W22 (mzero 3 3) [])
+  res_map (fun r => mat_repr (fst r)) (pivoted_fraction_free_gaussian_elimination_v0 W22 (mzero 3 3) [])
   = Ok [zr 0; zr 1; zr 2; zr 0; zr 3; zr 4; zr 0; zr 0; None]%Z.
 Proof. vm_compute. reflexivity. Qed.
 
@@ -72,27 +72,28 @@ Lemma LU_solve_WP :
   res_map mat_repr (LU_solve WP (mat_of_Z 2 1 [1; 2]%Z) (mzero 2 1)) = Ok [None; None].
 Proof. vm_compute. reflexivity. Qed.
 
-(* ---------- accesses outside the vectors ---------- *)
+(* ---------- accesses outside the vectors (code before the repairs 093e8f2, ee686c0) ---------- *)
 Definition WS : dmat := mat_of_Z 2 2 [1; 2; 2; 4]%Z.       (* singular *)
 
-(* no pivot in column 1: the swap loops of fraction_free_gauss_jordan_solve index row 2 *)
+(* no pivot in column 1: the swap loops of fraction_free_gauss_jordan_solve_v0 index row 2 *)
 Lemma ffgj_solve_WS :
-  fraction_free_gauss_jordan_solve WS (mat_of_Z 2 1 [1; 2]%Z) (mzero 2 1) true = ErrOOB 5 4.
+  fraction_free_gauss_jordan_solve_v0 WS (mat_of_Z 2 1 [1; 2]%Z) (mzero 2 1) true = ErrOOB 5 4.
 Proof. vm_compute. reflexivity. Qed.
 
-Lemma inverse_gauss_jordan_WS : inverse_gauss_jordan WS (mzero 2 2) = ErrOOB 5 4.
+Lemma inverse_gauss_jordan_WS : inverse_gauss_jordan_v0 WS (mzero 2 2) = ErrOOB 5 4.
 Proof. vm_compute. reflexivity. Qed.
 
-(* a wide matrix: fraction_free_gauss_jordan_elimination uses row 2 of a 2 x 3 matrix *)
+(* a wide matrix: fraction_free_gauss_jordan_elimination_v0 uses row 2 of a 2 x 3 matrix *)
 Lemma ffgj_wide :
-  fraction_free_gauss_jordan_elimination (mat_of_Z 2 3 [1; 2; 3; 4; 5; 6]%Z) (mzero 2 3) = ErrOOB 8 6.
+  fraction_free_gauss_jordan_elimination_v0 (mat_of_Z 2 3 [1; 2; 3; 4; 5; 6]%Z) (mzero 2 3) = ErrOOB 8 6.
 Proof. vm_compute. reflexivity. Qed.
 
-(* ------------------------------------------------------------------ refutation theorems *)
+(* ------------------------------------------------------------------ refutation theorems
+   (those about *_v0 concern the code before the repairs: kept as the record of fixed defects) *)
 (* rows 0 and 1 of the result have the same leading column: not an echelon form *)
 Theorem pge_echelon_refuted :
   exists A, good A 3 3 /\ exists B pl,
-    pivoted_gaussian_elimination A (mzero 3 3) [] = Ok (B, pl) /\
+    pivoted_gaussian_elimination_v0 A (mzero 3 3) [] = Ok (B, pl) /\
     x_is_zero (entry B 0 0) = true /\ x_is_zero (entry B 0 1) = false /\
     x_is_zero (entry B 1 0) = true /\ x_is_zero (entry B 1 1) = false.
 Proof.
@@ -103,7 +104,7 @@ Qed.
 (* a rational input, a result with a zoo entry *)
 Theorem pffge_finite_refuted :
   exists A, good A 3 3 /\ exists B pl,
-    pivoted_fraction_free_gaussian_elimination A (mzero 3 3) [] = Ok (B, pl) /\ entry B 2 2 = Zoo.
+    pivoted_fraction_free_gaussian_elimination_v0 A (mzero 3 3) [] = Ok (B, pl) /\ entry B 2 2 = Zoo.
 Proof.
   exists W22. split; [apply goodb_good; vm_compute; reflexivity|].
   eexists; eexists; split; [vm_compute; reflexivity|]. vm_compute. reflexivity.
@@ -133,11 +134,11 @@ Proof.
 Qed.
 
 (* in-bounds obligation refuted: a singular 2 x 2 input makes the pivot search of
-   fraction_free_gauss_jordan_solve (and so inverse_gauss_jordan) run off the matrix *)
+   fraction_free_gauss_jordan_solve_v0 (and so inverse_gauss_jordan_v0) run off the matrix *)
 Theorem ffgj_solve_in_bounds_refuted :
   exists A b, good A 2 2 /\ good b 2 1 /\
-    fraction_free_gauss_jordan_solve A b (mzero 2 1) true = ErrOOB 5 4 /\
-    inverse_gauss_jordan A (mzero 2 2) = ErrOOB 5 4.
+    fraction_free_gauss_jordan_solve_v0 A b (mzero 2 1) true = ErrOOB 5 4 /\
+    inverse_gauss_jordan_v0 A (mzero 2 2) = ErrOOB 5 4.
 Proof.
   exists WS, (mat_of_Z 2 1 [1; 2]%Z).
   split; [apply goodb_good; vm_compute; reflexivity|].
@@ -147,8 +148,29 @@ Qed.
 
 (* in-bounds obligation refuted: a wide matrix *)
 Theorem ffgj_wide_in_bounds_refuted :
-  exists A, good A 2 3 /\ fraction_free_gauss_jordan_elimination A (mzero 2 3) = ErrOOB 8 6.
+  exists A, good A 2 3 /\ fraction_free_gauss_jordan_elimination_v0 A (mzero 2 3) = ErrOOB 8 6.
 Proof.
   exists (mat_of_Z 2 3 [1; 2; 3; 4; 5; 6]%Z).
   split; [apply goodb_good; vm_compute; reflexivity | vm_compute; reflexivity].
 Qed.
+
+(* ------------------------------------------------------------------ the same inputs on the repaired code *)
+Lemma pge_W22_repaired :
+  res_map (fun r => mat_repr (fst r)) (pivoted_gaussian_elimination W22 (mzero 3 3) [])
+  = Ok [zr 0; zr 1; zr 2; zr 0; zr 0; zr (-2); zr 0; zr 0; zr (-3)]%Z.
+Proof. vm_compute. reflexivity. Qed.
+
+Lemma pffge_W22_repaired :
+  res_map (fun r => mat_repr (fst r)) (pivoted_fraction_free_gaussian_elimination W22 (mzero 3 3) [])
+  = Ok [zr 0; zr 1; zr 2; zr 0; zr 0; zr (-2); zr 0; zr 0; zr (-3)]%Z.
+Proof. vm_compute. reflexivity. Qed.
+
+Lemma ffgj_solve_WS_repaired :
+  fraction_free_gauss_jordan_solve WS (mat_of_Z 2 1 [1; 2]%Z) (mzero 2 1) true = ErrExn EXN_RANKDEF
+  /\ inverse_gauss_jordan WS (mzero 2 2) = ErrExn EXN_RANKDEF.
+Proof. split; vm_compute; reflexivity. Qed.
+
+Lemma ffgj_wide_repaired :
+  res_map mat_repr (fraction_free_gauss_jordan_elimination (mat_of_Z 2 3 [1; 2; 3; 4; 5; 6]%Z) (mzero 2 3))
+  = Ok [zr (-3); zr 0; zr 3; zr 0; zr (-3); zr (-6)]%Z.
+Proof. vm_compute. reflexivity. Qed.
